@@ -4,8 +4,17 @@ From LR Require Export lib.Base model.KV.
 
 Definition is_nil {A : Type} (l : list A) : bool := match l with [] => true | _ => false end.
 
-(* line(): a value is passed through strconv.Quote iff it is empty or holds '=' or ',' *)
-Definition tag_needs_quote (v : bytes) : bool := is_nil v || has EQ v || has COMMA v.
+(* line(): which values are passed through strconv.Quote.  Every variant quotes a value that is empty or holds
+   '=' or ','.  [fx] = true is valueNeedsQuote of the code: also a value with a blank at an end (the parser trims it),
+   a value starting with a double or back quote (the parser would unquote it) and, for the last pair of the line only
+   ([last]), a value ending in '}' (the braces pass would take it for the closing brace of the line).
+   [fx] = false is the earlier line(), which printed all of those raw. *)
+Definition tag_needs_quote_v (fx last : bool) (v : bytes) : bool :=
+  is_nil v || has EQ v || has COMMA v ||
+  (fx && (first_is SP v || last_is SP v || starts_quoted v || (last && last_is RBR v))).
+(* the variant on the tree *)
+Definition code_quote_edges : bool := true.
+Definition tag_needs_quote : bool -> bytes -> bool := tag_needs_quote_v code_quote_edges.
 
 (* k1=v1,k2=v2,...  (names and already rendered values) *)
 Fixpoint join_pairs (l : list (bytes * bytes)) : bytes :=
@@ -24,19 +33,34 @@ Definition sort_keys (ord : list bytes) : list bytes := fold_left insert_key ord
 Definition get_or_empty (k : bytes) (m : kvmap) : bytes := match map_get k m with Some v => v | None => [] end.
 
 Section WithQuote.
+  Variable fx : bool.
   Variable quote : bytes -> bytes.
 
-  Definition tag_val (v : bytes) : bytes := if tag_needs_quote v then quote v else v.
+  Definition tag_val_v (last : bool) (v : bytes) : bytes := if tag_needs_quote_v fx last v then quote v else v.
+
+  (* the printing loop over the sorted keys: the pair with i == len(srtKeys)-1 is the last one *)
+  Fixpoint render_v (l : list (bytes * bytes)) : list (bytes * bytes) :=
+    match l with
+    | [] => []
+    | (k, v) :: tl => (k, tag_val_v (is_nil tl) v) :: render_v tl
+    end.
 
   (* line() when `range m` enumerates the map in the order [ord] *)
-  Definition line_ord (ord : kvmap) : bytes :=
-    join_pairs (map (fun k => (k, tag_val (get_or_empty k ord))) (sort_keys (map fst ord))).
+  Definition line_ord_v (ord : kvmap) : bytes :=
+    join_pairs (render_v (map (fun k => (k, get_or_empty k ord)) (sort_keys (map fst ord)))).
   (* the canonical representative is itself one enumeration *)
-  Definition line (m : kvmap) : bytes := line_ord m.
+  Definition line_v (m : kvmap) : bytes := line_ord_v m.
 
   (* what line() amounts to on the canonical (sorted) representative; proved equal in proofs/TagsP.v *)
-  Definition print_tags (m : kvmap) : bytes := join_pairs (map (fun kv => (fst kv, tag_val (snd kv))) m).
+  Definition print_tags_v (m : kvmap) : bytes := join_pairs (render_v m).
 End WithQuote.
+
+(* the code *)
+Definition tag_val := tag_val_v code_quote_edges.
+Definition render := render_v code_quote_edges.
+Definition line_ord := line_ord_v code_quote_edges.
+Definition line := line_v code_quote_edges.
+Definition print_tags := print_tags_v code_quote_edges.
 
 (* kvstring.MapSubset / tag.Set.SubsetOf *)
 Definition map_subset (m1 m2 : kvmap) : bool :=
@@ -45,19 +69,28 @@ Definition map_subset (m1 m2 : kvmap) : bool :=
 (* ---- the class of tag sets on which print-then-parse is the identity ---- *)
 (* a name that goes through the scanner unchanged: not empty, no blank at an end, scanner-neutral *)
 Definition name_ok (k : bytes) : bool := negb (is_nil k) && trimmed k && neutral k.
-(* a value that survives being printed raw: no blank at an end, scanner-neutral (quotes balanced),
-   and not starting with a quote character (else the parser would unquote it) *)
-Definition raw_value_ok (v : bytes) : bool := trimmed v && neutral v && negb (starts_quoted v).
-Definition tag_value_safe (v : bytes) : bool := tag_needs_quote v || raw_value_ok v.
-(* the braces pass: the line must not start with an opening brace nor end, unquoted, with a closing one *)
+(* a value that survives being printed: it is quoted on the way out, or it goes through the scanner without
+   splitting (quotes balanced).  A raw-printed value has no blank at an end and does not start with a quote
+   character, by the quoting predicate itself (raw_value_facts in proofs/TagsP.v). *)
+Definition tag_value_safe (last : bool) (v : bytes) : bool := tag_needs_quote last v || neutral v.
+(* every name scanner-safe, every value safe at its place in the line *)
+Fixpoint tag_pairs_safe (m : kvmap) : bool :=
+  match m with
+  | [] => true
+  | (k, v) :: tl => name_ok k && tag_value_safe (is_nil tl) v && tag_pairs_safe tl
+  end.
+Fixpoint tag_values_safe (m : kvmap) : bool :=
+  match m with
+  | [] => true
+  | (_, v) :: tl => tag_value_safe (is_nil tl) v && tag_values_safe tl
+  end.
+(* the braces pass: the line must not start with an opening brace (a closing brace at the end is quoted away) *)
 Definition tag_edges_ok (m : kvmap) : bool :=
   match m with
   | [] => true
-  | (k, _) :: _ => negb (first_is LBR k) &&
-                   (let v := snd (last m ([], [])) in tag_needs_quote v || negb (last_is RBR v))
+  | (k, _) :: _ => negb (first_is LBR k)
   end.
-Definition tag_pair_safe (kv : bytes * bytes) : bool := name_ok (fst kv) && tag_value_safe (snd kv).
-Definition tag_safe (m : kvmap) : bool := forallb tag_pair_safe m && tag_edges_ok m.
+Definition tag_safe (m : kvmap) : bool := tag_pairs_safe m && tag_edges_ok m.
 
 (* strictly increasing keys: the representation invariant of kvmap *)
 Fixpoint keys_sorted (m : kvmap) : bool :=
